@@ -14,7 +14,8 @@ RULE = ('every public name of numqi.state (discovered with dir(); an uncovered n
         'bases d=2..8. Oracle: normalisation, Hermitian/PSD/trace one, projector of the ket, symmetry (U x U, U x U*), PPT by own partial transpose, rank, resolution of identity, '
         'closed forms vs generic two-qubit routines, literature formula, continuity and monotonicity. Non-trivial = anything but Werner/isotropic/tiles at the suite parameter '
         'values; distinct = (constructor, size args, parameter bucket).'
-        ' Second-call clause (edit the returned array in place, call again) for every constructor, load_upb, the POVM and the Chebyshev bases; W-type states also from integer coefficients.')
+        ' Second-call clause (edit the returned array in place, call again) for every constructor, load_upb, the POVM and the Chebyshev bases; W-type states also from integer coefficients.'
+        ' Dimensions up to 10 for the Werner / isotropic families.')
 ASSUMPTIONS = ['sixparam UPB: angles are drawn away from multiples of pi/2 (the code itself warns that the construction degenerates there)',
                'closed-form thresholds: "vanish exactly" is checked as == 0 on the separable range, continuity as |f| <= 1e-6 at 1e-9 beyond the threshold',
                'get_Isotropic_eof is compared with the Terhal-Vollbrecht formula re-implemented from the literature']
